@@ -1,6 +1,7 @@
 import Driver.J
 import Platypus.Spec.LnColSpec
 import Platypus.Model.ErrChain
+import Platypus.Model.ParsePos
 open Lean Platypus.LnCol
 
 namespace DrvC17
@@ -136,11 +137,92 @@ partial def treeCheck (src : List UInt8) (j : Json) : Option String :=
     own <|> kvs.foldl (fun acc _ v => acc <|> treeCheck src v) none
   | _ => none
 
+/-! ### the position-carrying parser model against the stored positions (kind `treepos`) -/
+
+open Platypus.ParsePos in
+mutual
+/-- positions only, in the order of the dump -/
+partial def ppPos : PP → String
+  | .ident _ _ p => s!"(id {p})"
+  | .num _ _ p _ => s!"(num {p})"
+  | .str _ _ p => s!"(str {p})"
+  | .bool _ p => s!"(bool {p})"
+  | .nil p _ => s!"(nil {p})"
+  | .list xs lb rb => s!"(list {lb} {rb}{ppL xs})"
+  | .map kvs lb rb => s!"(map {lb} {rb}{String.join (kvs.map fun (k, v) => " (" ++ ppPos k ++ " " ++ ppPos v ++ ")")})"
+  | .paren e lp rp => s!"(paren {lp} {rp} {ppPos e})"
+  | .attr o a p => s!"(attr {p} {ppPos o} {ppPos a})"
+  | .index obj idx lbs rbs => s!"(index {match obj with | some o => toString o.2.2 | none => "-"} {lbs} {rbs}{ppL idx})"
+  | .unary _ e p => s!"(unary {p} {ppPos e})"
+  | .bin _ l r p => s!"(bin {p} {ppPos l} {ppPos r})"
+  | .assign _ l r p => s!"(assign {p} [{ppL l}] [{ppL r}])"
+  | .call _ _ args np lp rp => s!"(call {np} {lp} {rp}{ppL args})"
+  | .slice o a b c _ lb rb => s!"(slice {lb} {rb} {ppPos o} {ppO a} {ppO b} {ppO c})"
+  | .ifelse ifs els =>
+    s!"(if{String.join (ifs.map fun (p, c, b) => s!" ({p} {ppPos c} [{ppL b}])")} {match els with | some (ep, b) => s!"({ep} [{ppL b}])" | none => "-"})"
+  | .forS i c l b p => s!"(for {p} {ppO i} {ppO c} {ppO l} [{ppL b}])"
+  | .forIn v it b fp ip => s!"(forin {fp} {ip} {ppPos v} {ppPos it} [{ppL b}])"
+  | .brk p => s!"(break {p})"
+  | .cont p => s!"(continue {p})"
+partial def ppL (xs : List Platypus.ParsePos.PP) : String := String.join (xs.map fun x => " " ++ ppPos x)
+partial def ppO : Option Platypus.ParsePos.PP → String
+  | some x => ppPos x
+  | none => "-"
+end
+
+mutual
+/-- the same rendering of the implementation's dumped tree -/
+partial def jsPos (j : Json) : String :=
+  let g := J.get j
+  let p (k : String) : Int := posOf (g k)
+  if J.isNull j then "-" else
+  match J.str (g "t") with
+  | "id" => s!"(id {p "p"})"
+  | "int" | "float" => s!"(num {p "p"})"
+  | "str" => s!"(str {p "p"})"
+  | "bool" => s!"(bool {p "p"})"
+  | "nil" => s!"(nil {p "p"})"
+  | "list" => s!"(list {p "lb"} {p "rb"}{jsL (g "xs")})"
+  | "map" => s!"(map {p "lb"} {p "rb"}{String.join ((J.arr (g "kvs")).toList.map fun kv => let a := J.arr kv; " (" ++ jsPos a[0]! ++ " " ++ jsPos a[1]! ++ ")")})"
+  | "paren" => s!"(paren {p "lp"} {p "rp"} {jsPos (g "e")})"
+  | "attr" => s!"(attr {p "p"} {jsPos (g "obj")} {jsPos (g "attr")})"
+  | "index" =>
+    let o := if J.isNull (g "obj") then "-" else toString (posOf (J.get (g "obj") "p"))
+    let ps (k : String) : List Int := (J.arr (g k)).toList.map posOf
+    s!"(index {o} {ps "lbs"} {ps "rbs"}{jsL (g "idx")})"
+  | "unary" => s!"(unary {p "p"} {jsPos (g "e")})"
+  | "arith" | "cond" | "in" => s!"(bin {p "p"} {jsPos (g "l")} {jsPos (g "r")})"
+  | "assign" => s!"(assign {p "p"} [{jsL (g "lhs")}] [{jsL (g "rhs")}])"
+  | "call" => s!"(call {p "np"} {p "lp"} {p "rp"}{jsL (g "args")})"
+  | "slice" => s!"(slice {p "lb"} {p "rb"} {jsPos (g "obj")} {jsPos (g "s")} {jsPos (g "e")} {jsPos (g "st")})"
+  | "if" =>
+    let elems := String.join ((J.arr (g "ifs")).toList.map fun i => s!" ({posOf (J.get i "p")} {jsPos (J.get i "c")} [{jsL (J.get i "b")}])")
+    s!"(if{elems} {if J.isNull (g "els") then "-" else s!"({p "ep"} [{jsL (g "els")}])"})"
+  | "for" => s!"(for {p "p"} {jsPos (g "init")} {jsPos (g "c")} {jsPos (g "loop")} [{jsL (g "b")}])"
+  | "forin" => s!"(forin {p "fp"} {p "ip"} {jsPos (g "var")} {jsPos (g "iter")} [{jsL (g "b")}])"
+  | "break" => s!"(break {p "p"})"
+  | "continue" => s!"(continue {p "p"})"
+  | t => s!"?{t}"
+partial def jsL (j : Json) : String := String.join ((J.arr j).toList.map fun x => " " ++ jsPos x)
+end
+
 def treepos (j : Json) : Json :=
   let src := J.hx (J.get j "src")
+  -- the position-carrying parser model on the same text (skipped for number spellings only
+  -- strconv.ParseFloat decides)
+  let its := Platypus.Lex.lexAll src
+  let modelled := !(its.any fun i => i.typ = .NUMBER && !Platypus.Parse.numModelled i.val)
+  let (agree, anote) : Bool × String :=
+    if !modelled then (true, "") else
+    match Platypus.ParsePos.parsePosItems its with
+    | none => (false, "the position-carrying parser model rejects a text the implementation parsed")
+    | some tps =>
+      let m := ppL tps
+      let i := jsL (J.get j "ast")
+      if m == i then (true, "") else (false, s!"stored positions: model {m} impl {i}")
   match treeCheck src (J.get j "ast") with
-  | none => J.obj [("id", J.get j "id"), ("agree", true), ("spec", true), ("note", "")]
-  | some msg => J.obj [("id", J.get j "id"), ("agree", true), ("spec", false), ("note", msg)]
+  | none => J.obj [("id", J.get j "id"), ("agree", agree), ("spec", true), ("note", anote)]
+  | some msg => J.obj [("id", J.get j "id"), ("agree", agree), ("spec", false), ("note", msg ++ " | " ++ anote)]
 
 /-! ### positions of errors (kind `errpos`) -/
 
